@@ -17,6 +17,11 @@ CFG = {
         "Leptos.Html.C06_view_structure_preserved_partial",
         "Leptos.Html.C06_view_raw_text_child_witness",
         # hand-written attributes: islands (data-props), the whole first chunk of leptos_meta
+        # <textarea> as RCDATA: repaired printer (fix-c06-3/4) for every string; regression witnesses for the old one
+        "Leptos.Html.C06_textarea_child",
+        "Leptos.Html.C06_textarea_old_witness",
+        "Leptos.Html.C06_textarea_lf_old_witness",
+        "Leptos.Html.run_textareaBody",
         "Leptos.Html.C06_island_props",
         "Leptos.Html.C06_doc_attrs",
         "Leptos.Html.C06_doc",
@@ -99,7 +104,16 @@ CFG = {
         "(tachys does not validate or escape them); attribute names pairwise distinct per element",
         "elements outside the parser table (tables, select/option, li/dl, pre, iframe, template, svg/math) are not covered by the theorems or the generator",
         "the empty string renders as one space (strings.rs): structureOf states this marker rule instead of hiding it",
-        "streaming (to_html_stream_*) is C07; macro-inlined static HTML is C18; islands props are not covered",
+        "streaming (to_html_stream_*) is C07; macro-inlined static HTML is C18",
+        "raw-text elements: string children of <textarea> are RCDATA text and are repaired by hooks/fix-c06-3.patch (+ fix-c06-4 for a leading "
+        "line feed): rendered without markers, then entity-escaped, DOM unchanged for every input that was rendered correctly before, hydration "
+        "untouched (children of such elements are not hydrated). Flipping ESCAPE_CHILDREN for textarea instead is NOT safe: it would print the "
+        "`' '` placeholder for an empty string and `<!>` for None/()/Vec into the form field and start hydrating its children. "
+        "<script>/<style>: no semantics-preserving escaping exists (character references are not decoded there; `<\\/` is only valid inside JS/CSS "
+        "string literals, and `<!--` has its own script-data states), so their string children stay raw by contract like inner_html (F-C06-1, known); "
+        "<noscript>: its children are markup for script-less clients (elements must stay unescaped), only its string leaves would need escaping, which "
+        "the single `escape` flag (it also switches the child markers) cannot express without an API change — left known. "
+        "Several string children of one <textarea> are still joined by a literal `<!>` (a property of the view shape, F-C18-2; class rcdata-marker)",
     ],
     "manifest": {
         "category": "proof",
